@@ -362,7 +362,19 @@ RealIntoFamily(z) ==
       p \in {"concatenate", "stack", "hstack", "vstack", "array", "append", "column_stack"}, s \in {<<3>>, <<2, 3>>}, pos \in {0, 1}, pre \in 0..2,
       st \in {"list", "tuple"}}
 
+\* ---------------------------------------------------------------- arrays with no entries (C05 / C01: structure of the results; nothing to compare entry-wise)
+\* shapes (0,), (0,3), (2,0); the argument, the other operand or the result is empty.  ia selects a variant per primitive.
+EmptyShapes == {<<0>>, <<0, 3>>, <<2, 0>>}
+EmptyFamily(z) ==
+  {Cfg(p, "func", s, <<>>, <<>>, 0, ax, kd, 0, 0, <<>>, "-", "rr", "array", NA) :
+      p \in {"sum", "prod", "cumsum", "mean_nonempty_axis", "max_nonempty_axis"}, s \in EmptyShapes, ax \in {NoAx, AxInt(0), AxInt(-1)}, kd \in BOOLEAN}
+  \cup {Cfg(p, "func", s, <<>>, <<>>, 0, NoAx, FALSE, v, 0, <<>>, "-", "rr", "array", NA) :
+      p \in {"reshape", "transpose", "ravel", "negative", "exp", "multiply", "add", "concatenate", "stack", "getitem_empty", "dot", "outer", "where", "sort", "flip",
+              "expand_dims", "squeeze", "tile", "repeat", "pad", "broadcast_to", "diag", "trace", "matmul", "tensordot", "einsum", "kron", "clip", "abs", "sqrt"},
+      s \in EmptyShapes, v \in 0..1}
+
 Space == CASE Family = "binary" -> BinaryFamily(0)
+           [] Family = "empty" -> EmptyFamily(0)
            [] Family = "realinto" -> RealIntoFamily(0)
            [] Family = "special" -> SpecialFamily(0)
            [] Family = "extend" -> ExtendFamily(0)
